@@ -35,6 +35,64 @@ def cursor_stores(res, fl):
     return out
 
 
+def option_cases(ev, res, t, depth=0):
+    """The ways an Option-valued term can turn out: [(payload or None, guard pairs)] - a join of this frame by incoming edge, `checked_sub`, `Result::ok` of an
+    integer `try_from`, `Some(v).filter(|_| c)` / `c.then_some(v)`, `a.or(b)`, literals.  None when the term is not understood."""
+    if depth > 6:
+        return None
+    T = lambda c: (c, ("eq", 1))
+    F = lambda c: (c, ("eq", 0))
+    tg = tag(t)
+    if tg == "variant" and t[2] == "Some":
+        return [(t[3][0], [])]
+    if tg == "variant" and t[2] == "None":
+        return [(None, [])]
+    if tg == "phi" and len(t) > 4 and t[4] and all(o is not None for o in t[4]):
+        try:
+            jb = int(str(t[1][-1]).split("@")[-1])
+        except ValueError:
+            return None
+        out = []
+        for alt, o in zip(t[3], t[4]):
+            sub_ = option_cases(ev, res, alt, depth + 1)
+            if sub_ is None:
+                return None
+            eg = list(ev.guards_edge(res, o, jb))
+            out.extend((p_, eg + g_) for p_, g_ in sub_)
+        return out
+    if tg == "call" and isinstance(t[1], str) and t[1].endswith("checked_sub") and len(t[2]) == 2:
+        a, b_ = t[2]
+        return [(sub(a, b_), [T(("cmp", "Le", b_, a))]), (None, [T(("cmp", "Lt", a, b_))])]
+    if tg == "filter" and tag(t[1]) == "variant" and t[1][2] == "Some":
+        return [(t[1][3][0], [T(t[2])]), (None, [F(t[2])])]
+    if tg == "call" and isinstance(t[1], str) and re.search(r"Result::<.*>::ok$", t[1]) and len(t[2]) == 1 and tag(t[2][0]) == "tryfrom":
+        x, ty = t[2][0][1], t[2][0][2]
+        rng = {"u8": (0, 2**8 - 1), "u16": (0, 2**16 - 1), "u32": (0, 2**32 - 1), "u64": (0, 2**64 - 1), "usize": (0, 2**64 - 1)}.get(ty)
+        if rng is None:
+            return None
+        return [(x, [T(("cmp", "Ge", x, const(rng[0]))), T(("cmp", "Le", x, const(rng[1])))]), (None, [T(("cmp", "Lt", x, const(rng[0])))]), (None, [T(("cmp", "Gt", x, const(rng[1])))])]
+    if tg == "call" and isinstance(t[1], str) and re.search(r"Option::<.*>::or$", t[1]) and len(t[2]) == 2:
+        a_, b_ = option_cases(ev, res, t[2][0], depth + 1), option_cases(ev, res, t[2][1], depth + 1)
+        if a_ is None or b_ is None:
+            return None
+        out = [(p_, g_) for p_, g_ in a_ if p_ is not None]
+        for p_, g_ in a_:
+            if p_ is None:
+                out.extend((q_, g_ + h_) for q_, h_ in b_)
+        return out
+    return None
+
+
+def resimplify_minmax(v):
+    """min / max terms rebuilt after a substitution (operands sorted as the evaluator sorts them)"""
+    def f(x):
+        if tag(x) in ("min", "max") and len(x) == 3:
+            a, b_ = term_map(x[1], f), term_map(x[2], f)
+            return (x[0], *sorted([a, b_], key=repr))
+        return None
+    return term_map(v, f)
+
+
 def clamp_ok(order, v, x, do, cap):
     """v == min(cap, max(do, x)) under the facts of `order`"""
     mx = ("max", *sorted([do, x], key=repr))
@@ -103,6 +161,22 @@ def w2(ctx):
         xs = {"Start": ("payload", POS, "Start", 0), "End": sub(cap, ("payload", POS, "End", 0)), "Current": add(cur, ("payload", POS, "Current", 0))}
         discr = {0: "Start", 1: "End", 2: "Current"}
         n = 0
+        # `target.map_or(data_offset, |o| o.clamp(data_offset, cap))` over a target that one helper computes for all three arms: the stored value is a join
+        # without edges of its own - it is taken apart by the ways the Option can turn out, each with the arm's guards
+        val0 = s["value"]
+        if (len(alts) >= 1 and any(gs is None for _, gs in alts) and tag(val0) == "phi" and len(val0[3]) == 2):
+            tgt_terms = []
+            term_map(val0, lambda x: tgt_terms.append(x[1]) or None if (tag(x) == "payload" and x[2] == "Some" and str(x[3]) == "0" and tag(x[1]) in ("phi", "call", "filter")) else None)
+            cases = option_cases(ev, res, tgt_terms[0]) if len(set(map(repr, tgt_terms))) == 1 else None
+            if cases:
+                T_ = tgt_terms[0]
+                mapped = [a for a in val0[3] if mentions(a, ("payload", T_, "Some", 0))]
+                dflt = [a for a in val0[3] if not mentions(a, ("payload", T_, "Some", 0))]
+                if len(mapped) == 1 and len(dflt) == 1:
+                    alts = []
+                    for p_, g_ in cases:
+                        v_ = dflt[0] if p_ is None else term_map(mapped[0], lambda x, p_=p_: p_ if x == ("payload", T_, "Some", 0) else None)
+                        alts.append((resimplify_minmax(v_), g_))
         for v, gs in alts:
             if gs is None:
                 yield Ob(key_of("C17-W2", b.path, "alt-unknown"), False, "a stored alternative has no path guards: %s" % short(v, 100), ctx.loc(s))
